@@ -1,3 +1,4 @@
 import Generated.Fields
 import Generated.Shapes
 import Generated.Sites
+import Generated.Funcs
